@@ -996,6 +996,43 @@ def make_case(rng, kind, **kw):
             n += 1
             ptx.append(conv.jscaffold(f"Scaffold_{n}", [conv.jfrag(0, s_["name"], 1, math.floor(T * beta), 1, ["Painted"] if kind == "nulltightp" else [])]))
         return {"kind": "nullp" if kind == "nulltightp" else "null", "input": inp, "ptx": ptx, "bpt": bpt}
+    if kind == "hole":
+        # NOT a PretextView map: two pieces that both reach a little way (< error length) into a small contig from either side and
+        # leave a stretch of it covered by neither (pieces do not abut).  Both overhangs <= error length, so nothing is trimmed at
+        # lookup time and the resolver's two-premise rule has to decide who keeps the contig.
+        beta = Fraction(bpt)
+        err = 1 + math.floor(beta)
+        big = lambda: math.ceil(beta) * rng.randint(4, 9) + rng.randint(0, 7)
+        inp, ptx, oid, n = [], [], 0, 0
+        for j in range(rng.randint(1, 2)):
+            f = rng.randint(max(2, err - 2), max(3, 2 * err - 1))
+            o1 = rng.randint(max(1, f - err), max(1, min(err - 1, f - 1)))
+            o2 = rng.randint(max(1, f - err), max(1, min(err - 1, f - 1)))
+            if o1 + o2 >= f and rng.random() < 0.8:
+                o2 = max(1, f - o1 - rng.randint(1, 3))
+            a, b = big(), big()
+            g1, g2 = rng.choice([0, 1, 17, 200]), rng.choice([0, 1, 17, 200])
+            rows = [conv.jfrag(oid, f"c{oid+1}", 1, a, rng.choice([1, -1]))]; oid += 1
+            if g1:
+                rows.append(conv.jgap(g1))
+            st = rng.randint(1, 40)
+            rows.append(conv.jfrag(oid, f"c{oid+1}", st, st + f - 1, rng.choice([1, -1]))); oid += 1
+            if g2:
+                rows.append(conv.jgap(g2))
+            rows.append(conv.jfrag(oid, f"c{oid+1}", 1, b, rng.choice([1, -1]))); oid += 1
+            inp.append(conv.jscaffold(f"s{j+1}", rows))
+            fs = a + g1 + 1                      # scaffold coordinate of the first base of the small contig
+            p1 = conv.jfrag(0, f"s{j+1}", 1, fs + o1 - 1, rng.choice([1, -1]), [])
+            p2 = conv.jfrag(0, f"s{j+1}", fs + f - o2, a + g1 + f + g2 + b, rng.choice([1, -1]), [])
+            painted = ["Painted"] if rng.random() < 0.5 else []
+            p1["tags"], p2["tags"] = list(painted), list(painted)
+            order = [p1, p2] if rng.random() < 0.6 else [p2, p1]
+            if rng.random() < 0.5:
+                n += 1; ptx.append(conv.jscaffold(f"Scaffold_{n}", [order[0], conv.jgap(100), order[1]]))
+            else:
+                for q in order:
+                    n += 1; ptx.append(conv.jscaffold(f"Scaffold_{n}", [q]))
+        return {"kind": "baits", "input": inp, "ptx": ptx, "bpt": bpt}
     if kind == "hapmix":
         # haplotype-named input scaffolds (HAP2_SCAFFOLD_7 …) and haplotype TAGS spelt in another case (Hap2, hap2 …); only some
         # of the Pretext scaffolds carry the tag, so untagged scaffolds of a haplotype may come BEFORE its first tagged one
